@@ -612,10 +612,10 @@ Section Types3.
                                   | X : (_ <=? _) = true |- _ => apply Nat.leb_le in X end.
 
   (* the rational interface (any mode that has a rational LP) *)
-  Lemma Q_types e (qo : qop) (q : qlp) :
+  Lemma Q_types e pm (qo : qop) (q : qlp) :
     WF2 q ->
-    prims_ok (qap_of qo) (qprims rnd e (nrows q) (ncols q) q qo) q = true ->
-    let q' := applys (qap_of qo) (qprims rnd e (nrows q) (ncols q) q qo) q in
+    prims_ok (qap_of qo) (qprims rnd e pm (nrows q) (ncols q) q qo) q = true ->
+    let q' := applys (qap_of qo) (qprims rnd e pm (nrows q) (ncols q) q qo) q in
     ty_apply inf q' (qtyupd inf (nrows q) (ncols q) qo) (cr q, cc q) = (cr q', cc q') /\ WF2 q'.
   Proof.
     intros Hq Hok q'.
@@ -705,11 +705,11 @@ Section Types4.
                                   | X : (_ <=? _) = true |- _ => apply Nat.leb_le in X end.
 
   (* the real interface in SYNCMODE_AUTO *)
-  Lemma R_types e m n (ro : rop) (q : qlp) :
+  Lemma R_types e pm m n (ro : rop) (q : qlp) :
     WF2 q ->
-    prims_ok qapply (map (prim_map d2q) (rprims e m n ro)) q = true ->
+    prims_ok qapply (map (prim_map d2q) (rprims e pm m n ro)) q = true ->
     rgap_ok inf ro ->
-    let q' := applys qapply (map (prim_map d2q) (rprims e m n ro)) q in
+    let q' := applys qapply (map (prim_map d2q) (rprims e pm m n ro)) q in
     ty_apply inf q' (rtyupd m n ro) (cr q, cc q) = (cr q', cc q') /\ WF2 q'.
   Proof.
     intros Hq Hok Hgap q'.
@@ -992,11 +992,11 @@ Section Sync.
   Qed.
 
   Lemma qprims_rel s q qo :
-    prims_ok (qap_of qo) (qprims rnd (eps s) (nrows q) (ncols q) q qo) q = true ->
+    prims_ok (qap_of qo) (qprims rnd (eps s) (pmax s) (nrows q) (ncols q) q qo) q = true ->
     benign_q s q qo ->
     Forall2 (prim_rel adj dzero qzero (nzr_of qo) (nzq_of qo))
-            (qrprims rnd (eps s) (nrows q) (ncols q) (applys (qap_of qo) (qprims rnd (eps s) (nrows q) (ncols q) q qo) q) (pmax s) qo)
-            (qprims rnd (eps s) (nrows q) (ncols q) q qo).
+            (qrprims rnd (eps s) (nrows q) (ncols q) (applys (qap_of qo) (qprims rnd (eps s) (pmax s) (nrows q) (ncols q) q qo) q) (pmax s) qo)
+            (qprims rnd (eps s) (pmax s) (nrows q) (ncols q) q qo).
   Proof.
     intros Hok Hb.
     destruct qo as [g [[a b] v]|g rs|g [[[o a] b] v]|g cs|i [[a b] v]|j [[[o a] b] v]|i x|xs|i x|xs|xs|i a b|a b|j x|xs|j x|xs|j a b|a b|j x|xs|g i j x
@@ -1125,8 +1125,8 @@ Section Main.
     unfold valid_op in Hv. rewrite Hm, Hq in Hv.
     apply andb_prop in Hv as [Hv Hv4]. apply andb_prop in Hv as [Hv Hv3]. apply andb_prop in Hv as [Hv1 Hv2].
     unfold step. cbv zeta. rewrite Hm, Hq.
-    set (ps := rprims (eps s) (nrows (rl s)) (ncols (rl s)) ro) in *.
-    destruct (R_types (d2q (pinf s)) (eps s) (nrows (rl s)) (ncols (rl s)) ro q Hwf Hv4 Hgap) as [E W].
+    set (ps := rprims (eps s) (pmax s) (nrows (rl s)) (ncols (rl s)) ro) in *.
+    destruct (R_types (d2q (pinf s)) (eps s) (pmax s) (nrows (rl s)) (ncols (rl s)) ro q Hwf Hv4 Hgap) as [E W].
     exists (qapplys (map (prim_map d2q) ps) q). split; [reflexivity|]. split; [|split].
     - unfold with_lps. cbn [rl]. apply adj_applys; auto. now apply prims_d2q.
     - unfold types_ok, with_lps. cbn [rty cty pinf]. rewrite Ht1, Ht2. fold ps in E. unfold qapplys. rewrite E. split; reflexivity.
@@ -1142,7 +1142,7 @@ Section Main.
     unfold valid_op in Hv. rewrite Hm, Hq in Hv.
     apply andb_prop in Hv as [Hv Hv3]. apply andb_prop in Hv as [Hv1 Hv2].
     unfold step. cbv zeta. rewrite Hm, Hq.
-    destruct (Q_types rnd (d2q (pinf s)) (eps s) qo q Hwf Hv1) as [E W].
+    destruct (Q_types rnd (d2q (pinf s)) (eps s) (pmax s) qo q Hwf Hv1) as [E W].
     eexists. split; [reflexivity|]. split; [|split].
     - unfold with_lps. cbn [rl]. rewrite rap_of_eq, qap_of_eq. apply adj_applys; auto.
       rewrite <- qap_of_eq. now apply qprims_rel.
@@ -1216,9 +1216,9 @@ Section Main2.
     - (* real interface *)
       unfold valid_op in Hv. apply andb_prop in Hv as [Hv Hv4]. apply andb_prop in Hv as [Hv Hv3].
       apply andb_prop in Hv as [Hv1 Hv2].
-      assert (RealOK (rapplys (rprims (eps s) (nrows (rl s)) (ncols (rl s)) ro) (rl s))) as A'
+      assert (RealOK (rapplys (rprims (eps s) (pmax s) (nrows (rl s)) (ncols (rl s)) ro) (rl s))) as A'
         by (apply applys_RealOK; auto).
-      assert (WF2 (rapplys (rprims (eps s) (nrows (rl s)) (ncols (rl s)) ro) (rl s))) as B'
+      assert (WF2 (rapplys (rprims (eps s) (pmax s) (nrows (rl s)) (ncols (rl s)) ro) (rl s))) as B'
         by (apply WF2_rapplys; auto).
       unfold step. cbv zeta.
       destruct (mode s) eqn:Hm; destruct (ql s) as [q|] eqn:Hq; try discriminate Hv4;
@@ -1230,7 +1230,7 @@ Section Main2.
       destruct (mode s) eqn:Hm; destruct (ql s) as [q|] eqn:Hq; try discriminate Hv.
       + destruct qo; try exact HI.
         unfold with_lps; inv4; cbn [rl ql mode fst snd]; auto.
-        intros ? E. injection E as <-. apply WF2_empty.
+        intros ? E. injection E as <-. split; reflexivity.
       + apply andb_prop in Hv as [Hv Hv3]. apply andb_prop in Hv as [Hv1 Hv2].
         unfold with_lps; inv4; cbn [rl ql mode fst snd]; rewrite ?rap_of_eq in *.
         * apply applys_RealOK; auto. apply qrprims_dy_ok.
@@ -1409,10 +1409,10 @@ Section Main3.
     intros Hm (_ & _ & C & _) HT Hv. unfold TypesOK in *. unfold valid_op in Hv. unfold step. cbv zeta.
     destruct (mode s) eqn:Em; [congruence| |]; destruct (ql s) as [q|] eqn:Hq; try discriminate Hv.
     - apply andb_prop in Hv as [Hv Hv3]. apply andb_prop in Hv as [Hv1 Hv2]. destruct HT as [T1 T2].
-      destruct (Q_types rnd (d2q (pinf s)) (eps s) qo q (C q eq_refl) Hv1) as [E W].
+      destruct (Q_types rnd (d2q (pinf s)) (eps s) (pmax s) qo q (C q eq_refl) Hv1) as [E W].
       unfold with_lps. cbn [ql]. unfold types_ok. cbn [rty cty pinf]. rewrite T1, T2, E. split; reflexivity.
     - apply andb_prop in Hv as [Hv Hv3]. apply andb_prop in Hv as [Hv1 Hv2]. destruct HT as [T1 T2].
-      destruct (Q_types rnd (d2q (pinf s)) (eps s) qo q (C q eq_refl) Hv1) as [E W].
+      destruct (Q_types rnd (d2q (pinf s)) (eps s) (pmax s) qo q (C q eq_refl) Hv1) as [E W].
       unfold with_lps. cbn [ql]. unfold types_ok. cbn [rty cty pinf]. rewrite T1, T2, E. split; reflexivity.
   Qed.
 
@@ -1425,19 +1425,22 @@ End Main3.
 (* ================================================== "the rational LP holds exactly the numbers that were entered" *)
 (* the denotation of a call on a rational LP alone: no mode, no real LP, no rounding, no epsilon, no type arrays;
    a double argument stands for its exact value *)
-Definition rprims_ideal (m n : nat) (o : rop) : list (prim dy) :=
-  match o with RElem i j x => [PElem i j x] | _ => rprims dzero m n o end.
-Definition qprims_ideal (m n : nat) (q : qlp) (o : qop) : list (prim Q) :=
-  match o with QElem _ i j x => [PElem i j x] | _ => qprims (fun _ _ => dzero) dzero m n q o end.
-Definition spec_step (q : qlp) (o : op) : qlp :=
+Definition rprims_ideal (pm : bool) (m n : nat) (o : rop) : list (prim dy) :=
+  match o with RElem i j x => [PElem i j x] | _ => rprims dzero pm m n o end.
+Definition qprims_ideal (pm : bool) (m n : nat) (q : qlp) (o : qop) : list (prim Q) :=
+  match o with QElem _ i j x => [PElem i j x] | _ => qprims (fun _ _ => dzero) dzero pm m n q o end.
+(* [pm]: the OBJSENSE parameter (clearLP re-applies it) *)
+Definition spec_step (pm : bool) (q : qlp) (o : op) : qlp :=
   match o with
-  | OR ro => qapplys (map (prim_map d2q) (rprims_ideal (nrows q) (ncols q) ro)) q
-  | OQ qo => applys (qap_of qo) (qprims_ideal (nrows q) (ncols q) q qo) q
+  | OR ro => qapplys (map (prim_map d2q) (rprims_ideal pm (nrows q) (ncols q) ro)) q
+  | OQ qo => applys (qap_of qo) (qprims_ideal pm (nrows q) (ncols q) q qo) q
   | SetSense mx => qapply (PSense mx) q
   | SetOffset v => if qleb (- d2q dinf) (d2q v) && qleb (d2q v) (d2q dinf) then qapply (POff (d2q v)) q else q
   | _ => q
   end.
-Definition spec_run (q : qlp) (ops : list op) : qlp := fold_left spec_step ops q.
+Definition spec_pm (pm : bool) (o : op) : bool := match o with SetSense mx => mx | _ => pm end.
+Fixpoint spec_run (pm : bool) (q : qlp) (ops : list op) : qlp :=
+  match ops with [] => q | o :: t => spec_run (spec_pm pm o) (spec_step pm q o) t end.
 
 Section Exact.
   Variable rnd : rkind -> Q -> dy.
@@ -1454,20 +1457,25 @@ Section Exact.
   Theorem exact_step s o q :
     mode s = Auto -> ql s = Some q -> nrows (rl s) = nrows q -> ncols (rl s) = ncols q ->
     elem_kept s o -> stays_auto o ->
-    ql (step rnd s o) = Some (spec_step q o).
+    ql (step rnd s o) = Some (spec_step (pmax s) q o) /\ pmax (step rnd s o) = spec_pm (pmax s) o.
   Proof.
-    intros Hm Hq Em En Hk Hs. destruct o as [ro|qo| | | |md|v|mx|v]; unfold step; cbv zeta; rewrite ?Hm, ?Hq.
-    - unfold with_lps. cbn [ql]. f_equal. unfold spec_step. rewrite Em, En.
-      destruct ro; try reflexivity. simpl in Hk. cbn [rprims rprims_ideal]. unfold elem_r. now rewrite Hk.
-    - unfold with_lps. cbn [ql]. f_equal. unfold spec_step.
-      destruct qo; try reflexivity. cbn [qprims qprims_ideal]. unfold elem_q. destruct g; simpl in Hk; now rewrite Hk.
-    - first [exact Hq|reflexivity].
-    - first [exact Hq|reflexivity].
-    - first [exact Hq|reflexivity].
-    - destruct md; simpl in Hs; try contradiction. cbn [ql]. first [exact Hq|reflexivity].
-    - destruct (_ && _); first [exact Hq|reflexivity].
-    - reflexivity.
-    - unfold spec_step. destruct (_ && _); first [exact Hq|reflexivity].
+    intros Hm Hq Em En Hk Hs. split.
+    - destruct o as [ro|qo| | | |md|v|mx|v]; unfold step; cbv zeta; rewrite ?Hm, ?Hq.
+      + unfold with_lps. cbn [ql]. f_equal. unfold spec_step. rewrite Em, En.
+        destruct ro; try reflexivity. simpl in Hk. cbn [rprims rprims_ideal]. unfold elem_r. now rewrite Hk.
+      + unfold with_lps. cbn [ql]. f_equal. unfold spec_step.
+        destruct qo; try reflexivity. cbn [qprims qprims_ideal]. unfold elem_q. destruct g; simpl in Hk; now rewrite Hk.
+      + first [exact Hq|reflexivity].
+      + first [exact Hq|reflexivity].
+      + first [exact Hq|reflexivity].
+      + destruct md; simpl in Hs; try contradiction. cbn [ql]. first [exact Hq|reflexivity].
+      + destruct (_ && _); first [exact Hq|reflexivity].
+      + reflexivity.
+      + unfold spec_step. destruct (_ && _); first [exact Hq|reflexivity].
+    - destruct o as [ro|qo| | | |md|v|mx|v]; unfold step; cbv zeta; rewrite ?Hm, ?Hq; try reflexivity.
+      + destruct md; simpl in Hs; try contradiction. reflexivity.
+      + destruct (_ && _); reflexivity.
+      + destruct (_ && _); reflexivity.
   Qed.
 
   Hypothesis rnd_adj : forall k q, adj (rnd k q) q.
@@ -1477,14 +1485,13 @@ Section Exact.
 
   Theorem exact_history ops : forall s q, mode s = Auto -> InSync s -> ql s = Some q ->
     hist_ok rnd s ops -> hist_kept s ops ->
-    ql (run rnd s ops) = Some (spec_run q ops).
+    ql (run rnd s ops) = Some (spec_run (pmax s) q ops).
   Proof.
     induction ops as [|o t IH]; intros s q Hm HS Hq H K; simpl; auto.
     destruct H as (Hv & Hb & Hs & Ht). destruct K as [K1 K2].
     pose proof HS as (q0 & Hq0 & Hrel & _). rewrite Hq in Hq0. injection Hq0 as <-.
-    assert (ql (step rnd s o) = Some (spec_step q o)) as E.
-    { apply exact_step; auto. - apply (nrows_rel _ _ _ Hrel). - apply (ncols_rel _ _ _ Hrel). }
-    apply IH; auto.
+    destruct (exact_step s o q Hm Hq (nrows_rel _ _ _ Hrel) (ncols_rel _ _ _ Hrel) K1 Hs) as [E1 E2].
+    rewrite <- E2. apply IH; auto.
     - now apply mode_step.
     - apply auto_step_preserves; auto. intros ->. exact Hs.
   Qed.
@@ -1621,20 +1628,111 @@ Proof.
   rewrite E, E' in Hrel. discriminate Hrel.
 Qed.
 
-(* (7) addColRational(const mpq_t pointer ...) after clearLPReal under OBJSENSE_MINIMIZE: the objective changes sign *)
-Definition hist_gmp_sense : list op :=
-  [SetSense false; SetMode Auto; OR (RAddCol (dI 1, dI 0, dinf, [])); OR RClear; OQ (QAddCol true (5%Q, 0%Q, 1%Q, []))].
-Lemma gmp_sense_refutes :
-  valid_run rnd_impl init hist_gmp_sense = true /\ ~ InSync (run rnd_impl init hist_gmp_sense).
+(* ============================================ the sense of both LPs is the OBJSENSE parameter in every reachable state *)
+Definition keeps_sense {T} (p : prim T) : bool := match p with PClear | PSense _ => false | _ => true end.
+
+Lemma lmax_papply_keep {T} (tz : T) tneg tnz tinf (p : prim T) l :
+  keeps_sense p = true -> lmax (papply tz tneg tnz tinf p l) = lmax l.
 Proof.
-  split; [vm_compute; reflexivity|].
-  intros (q & Hq & Hrel & _).
-  assert (option_map (@mobj Q) (ql (run rnd_impl init hist_gmp_sense)) = Some [5%Q]) as E by (vm_compute; reflexivity).
-  rewrite Hq in E. simpl in E. injection E as E.
-  assert (mobj (rl (run rnd_impl init hist_gmp_sense)) = [((-5629499534213120)%Z, (-50)%Z)]) as E' by (vm_compute; reflexivity).
-  destruct Hrel as [_ _ Hm _ _ _ _ _]. rewrite E, E' in Hm.
-  inversion Hm as [|? ? ? ? H1 _]; subst.
-  revert H1. apply (not_adj_between _ _ (dI 0)); [reflexivity|]. split; vm_compute; [reflexivity|discriminate].
+  destruct p as [[[a b] v]|[[[o a] b] v]|i [[a b] v]|j [[[o a] b] v]|i x|i x|j x|j x|j x|xs|xs|xs|xs|xs|i j x|i|j|m|m| |mx|x];
+    simpl; intros H; try discriminate; reflexivity.
+Qed.
+
+Lemma lmax_applys_keep {T} (tz : T) tneg tnz tinf ps : forall l,
+  forallb keeps_sense ps = true -> lmax (applys (papply tz tneg tnz tinf) ps l) = lmax l.
+Proof.
+  induction ps as [|p ps IH]; intros l H; simpl; auto.
+  simpl in H. apply andb_prop in H as [H1 H2]. unfold applys in *. simpl. rewrite IH; auto. now apply lmax_papply_keep.
+Qed.
+
+Lemma lmax_clear_sense {T} (tz : T) tneg tnz tinf pm l :
+  lmax (applys (papply tz tneg tnz tinf) [PClear; PSense pm] l) = pm.
+Proof. reflexivity. Qed.
+
+Lemma keeps_map {A B} (f : A -> prim B) l : (forall x, keeps_sense (f x) = true) -> forallb keeps_sense (map f l) = true.
+Proof. intros H. induction l; simpl; auto. now rewrite H. Qed.
+
+Lemma keeps_prim_map {A B} (f : A -> B) p : keeps_sense (prim_map f p) = keeps_sense p.
+Proof.
+  destruct p as [[[a b] v]|[[[o a] b] v]|i [[a b] v]|j [[[o a] b] v]|i x|i x|j x|j x|j x|xs|xs|xs|xs|xs|i j x|i|j|m|m| |mx|x]; reflexivity.
+Qed.
+
+Lemma keeps_map_prim_map {A B} (f : A -> B) ps : forallb keeps_sense (map (prim_map f) ps) = forallb keeps_sense ps.
+Proof. induction ps; simpl; auto. now rewrite keeps_prim_map, IHps. Qed.
+
+Lemma rprims_sense e pm m n ro (ap : prim dy -> rlp -> rlp) :
+  (exists nz, ap = papply dzero dneg nz dinf) -> forall l, lmax l = pm -> lmax (applys ap (rprims e pm m n ro) l) = pm.
+Proof.
+  intros [nz ->] l H. destruct ro; try reflexivity;
+    (rewrite lmax_applys_keep; [exact H|]; cbn [rprims forallb keeps_sense andb]; try reflexivity).
+  - apply keeps_map. reflexivity.
+  - apply keeps_map. reflexivity.
+Qed.
+
+Lemma rprims_sense_q e pm m n ro : forall q : qlp, lmax q = pm ->
+  lmax (qapplys (map (prim_map d2q) (rprims e pm m n ro)) q) = pm.
+Proof.
+  intros q H. unfold qapplys, qapply. destruct ro; try reflexivity;
+    (rewrite lmax_applys_keep; [exact H|]; rewrite keeps_map_prim_map; cbn [rprims forallb keeps_sense andb]; try reflexivity).
+  - apply keeps_map. reflexivity.
+  - apply keeps_map. reflexivity.
+Qed.
+
+Lemma qprims_sense rnd e pm (q0 : qlp) qo : forall q : qlp, lmax q = pm ->
+  lmax (applys (qap_of qo) (qprims rnd e pm (nrows q0) (ncols q0) q0 qo) q) = pm.
+Proof.
+  intros q H. rewrite qap_of_eq. destruct qo; try reflexivity;
+    (rewrite lmax_applys_keep; [exact H|]; cbn [qprims forallb keeps_sense andb]; try reflexivity).
+  - apply keeps_map. reflexivity.
+  - apply keeps_map. reflexivity.
+Qed.
+
+Lemma qrprims_sense rnd e pm m n q' qo : forall l : rlp, lmax l = pm ->
+  lmax (applys (rap_of qo) (qrprims rnd e m n q' pm qo) l) = pm.
+Proof.
+  intros l H. rewrite rap_of_eq. destruct qo; try destruct g; try reflexivity;
+    (rewrite lmax_applys_keep; [exact H|]; cbn [qrprims forallb keeps_sense andb]; try reflexivity).
+  all: apply keeps_map; intros; reflexivity.
+Qed.
+
+Definition SenseOK (s : state) : Prop := lmax (rl s) = pmax s /\ forall q, ql s = Some q -> lmax q = pmax s.
+
+Lemma SenseOK_init : SenseOK init.
+Proof. split; [reflexivity|discriminate]. Qed.
+
+Theorem step_SenseOK rnd s o : SenseOK s -> SenseOK (step rnd s o).
+Proof.
+  intros HS. pose proof HS as [A B]. destruct o as [ro|qo| | | |md|v|mx|v]; unfold step; cbv zeta.
+  - assert (lmax (rapplys (rprims (eps s) (pmax s) (nrows (rl s)) (ncols (rl s)) ro) (rl s)) = pmax s) as A'.
+    { apply rprims_sense; auto. exists dnz. reflexivity. }
+    destruct (mode s); destruct (ql s) as [q|] eqn:Hq; unfold with_lps; split; cbn [rl ql pmax]; auto; try discriminate.
+    intros ? E. injection E as <-. apply rprims_sense_q. now apply B.
+  - destruct (mode s); destruct (ql s) as [q|] eqn:Hq; try exact HS.
+    + destruct qo; try exact HS. unfold with_lps; split; cbn [rl ql pmax]; auto.
+      intros ? E. injection E as <-. reflexivity.
+    + unfold with_lps; split; cbn [rl ql pmax].
+      * now apply qrprims_sense.
+      * intros ? E. injection E as <-. apply qprims_sense. now apply B.
+    + unfold with_lps; split; cbn [rl ql pmax]; auto.
+      intros ? E. injection E as <-. apply qprims_sense. now apply B.
+  - destruct (mode s); try exact HS. unfold sync_real. destruct (ql s) as [q|] eqn:Hq; [|exact HS].
+    split; cbn [rl ql pmax]; auto. simpl. now apply B.
+  - destruct (mode s); try exact HS. unfold sync_rat. split; cbn [rl ql pmax]; auto.
+    intros ? E. injection E as <-. simpl. exact A.
+  - destruct (mode s); try exact HS. unfold sync_rat. split; cbn [rl ql pmax]; auto.
+    intros ? E. injection E as <-. simpl. exact A.
+  - destruct md.
+    + split; cbn [rl ql pmax]; auto. discriminate.
+    + destruct (mode s); unfold sync_rat; split; cbn [rl ql pmax]; auto.
+      intros ? E. injection E as <-. simpl. exact A.
+    + split; cbn [rl ql pmax]; auto. intros ? E. injection E as <-. simpl. exact A.
+  - destruct (_ && _); [|exact HS].
+    destruct (mode s); destruct (ql s) as [q|] eqn:Hq; split; cbn [rl ql pmax]; auto; try discriminate;
+      intros ? E; rewrite <- E in *; auto.
+  - split; cbn [rl ql pmax]; [reflexivity|]. intros q E. destruct (ql s); simpl in E; [|discriminate].
+    injection E as <-. reflexivity.
+  - destruct (_ && _); [|exact HS]. split; cbn [rl ql pmax]; auto.
+    intros q E. destruct (ql s) as [q0|] eqn:Hq; simpl in E; [|discriminate]. injection E as <-. simpl. now apply B.
 Qed.
 
 (* ====================================================== an oracle that satisfies the adjacency hypothesis *)
